@@ -33,7 +33,7 @@ def fname(f):
     return getattr(f, "__name__", None) or getattr(getattr(f, "py_func", None), "__name__", "?")
 
 
-def regen(ctx=None, parts=("constants", "registry", "knn", "seeded", "distsrc", "sparsesrc", "layoutsrc", "umapsrc")):
+def regen(ctx=None, parts=("constants", "registry", "knn", "seeded", "distsrc", "sparsesrc", "layoutsrc", "umapsrc", "utilssrc")):
     """rewrite the requested Generated files from the live package; returns True if anything changed"""
     changed = []
     if "constants" in parts:
@@ -60,6 +60,14 @@ def regen(ctx=None, parts=("constants", "registry", "knn", "seeded", "distsrc", 
         if ctx is not None:
             ctx.notes.append(f"translate: {len(rep) - len(bad)} of {len(rep)} scalar kernels of umap/layouts.py translated"
                              + ("; NOT translated: " + "; ".join(f"{k} ({v})" for k, v in bad.items()) if bad else ""))
+    if "utilssrc" in parts:
+        import translate
+        ch, rep = translate.regen_utils_src(LEAN, write_if_changed)
+        changed.append(("UtilsSrc", ch))
+        bad = {k: v for k, v in rep.items() if v != "ok"}
+        if ctx is not None:
+            ctx.notes.append(f"translate: {len(rep) - len(bad)} of {len(rep)} kernels of umap/utils.py translated (tau_rand_int)"
+                             + ("; NOT translated: " + "; ".join(f"{k} ({v})" for k, v in bad.items()) if bad else ""))
     if "umapsrc" in parts:
         import translate
         ch, rep = translate.regen_umap_src(LEAN, write_if_changed)
@@ -78,7 +86,7 @@ def regen(ctx=None, parts=("constants", "registry", "knn", "seeded", "distsrc", 
                              + ("; NOT translated: " + "; ".join(f"{k} ({v})" for k, v in bad.items()) if bad else ""))
     write_if_changed(os.path.join(LEAN, "Generated.lean"),
                      "-- root of the Generated library (rewritten from the live /repo by harness/regen.py)\n"
-                     "import Generated.Constants\nimport Generated.Registry\nimport Generated.KnnDecision\nimport Generated.Seeded\nimport Generated.DistSrc\nimport Generated.RunCommon\nimport Generated.DistSrcRun\nimport Generated.SparseSrc\nimport Generated.SparseSrcRun\nimport Generated.LayoutSrc\nimport Generated.LayoutSrcRun\nimport Generated.UmapSrc\nimport Generated.UmapSrcRun\n")
+                     "import Generated.Constants\nimport Generated.Registry\nimport Generated.KnnDecision\nimport Generated.Seeded\nimport Generated.DistSrc\nimport Generated.RunCommon\nimport Generated.DistSrcRun\nimport Generated.SparseSrc\nimport Generated.SparseSrcRun\nimport Generated.LayoutSrc\nimport Generated.LayoutSrcRun\nimport Generated.UmapSrc\nimport Generated.UmapSrcRun\nimport Generated.UtilsSrc\n")
     if ctx is not None:
         ctx.notes.append("regen: " + ", ".join(f"{n} changed={c}" for n, c in changed))
     return any(c for _, c in changed)
